@@ -237,6 +237,13 @@ class SigmaFilter(SigmaRuleBase):
         # the structure of the original identifier names so that wildcard patterns in the
         # filter condition (e.g. "1 of selection_*") continue to work after renaming.
         prefix = "_filt_" + "".join(random.choices(string.ascii_lowercase, k=10))
+        # The prefix must not be in use by detections of the rule (e.g. added by a filter applied
+        # before that has drawn the same prefix), else the filter conditions capture each other.
+        prefix_base = prefix
+        i = 0
+        while any(name.startswith(prefix + "_") for name in rule.detection.detections):
+            i += 1
+            prefix = f"{prefix_base}{i}"
 
         # Rename every filter detection identifier with the shared prefix.
         for original_cond_name, condition in self.filter.detections.items():
